@@ -3,6 +3,9 @@
 package docx
 
 import "strconv"
+}
+
+import "encoding/xml"
 
 // Verification hooks (add-only): read access to the parsed element list in
 // document order, which has no exported accessor.
@@ -159,4 +162,29 @@ func VerifNewReader(elems []VerifElem, headerTexts, footerTexts []string, meta V
 	}
 	r.paragraphs = make([]parsedParagraph, nParas)
 	return r
+}
+
+// VerifHeading is the heading part of one Resolve answer.
+type VerifHeading struct {
+	IsHeading bool
+	Level     int
+}
+
+// VerifResolveHeadings builds ONE style resolver for the given word/styles.xml
+// (nil: no styles part) the way Open does, calls Resolve for every id in order
+// on it and returns the heading part of each answer (verification harness only).
+func VerifResolveHeadings(stylesData []byte, ids []string) []VerifHeading {
+	sr := NewStyleResolver(nil)
+	if stylesData != nil {
+		st := &stylesXML{}
+		if err := xml.Unmarshal(stylesData, st); err == nil {
+			sr = NewStyleResolver(st)
+		}
+	}
+	out := make([]VerifHeading, 0, len(ids))
+	for _, id := range ids {
+		rs := sr.Resolve(id)
+		out = append(out, VerifHeading{IsHeading: rs.IsHeading, Level: rs.HeadingLevel})
+	}
+	return out
 }
